@@ -61,8 +61,7 @@ if confirmed:
 first = None
 if os.path.exists(f"{out}/meta.json"):
     old = json.load(open(f"{out}/meta.json"))
-    first = old.get("first_evaluation") or dict(caught_by=old.get("caught_by"), caught_with_failing_input=old.get("caught_with_failing_input"),
-                                                note="result of the quick checks as they stood when the change was first evaluated")
+    first = old.get("first_evaluation")      # recorded for the waves of session 3 only; never invented afterwards
 meta = dict(property=pid, name=name, confirmed=confirmed, first_evaluation=first,
             tests_with_change=t, tests_without_change=t0,
             demo_with_change=dict(rc=d1.returncode, tail=(d1.stdout + d1.stderr)[-400:]),
